@@ -684,7 +684,11 @@ def long_runs(rng, kind, to, thorough=False, base_id=800, fillers=None, lengths=
         x, y = [176 + ch, 99, 3], [176 + ch, 98, 37]
         scen = [([x, y, [176 + ch, 38, 24]], [[176 + ch, 6, 117], [176 + ch, 38, 25]]),
                 ([x, y], [[176 + ch, 6, 99], [176 + ch, 96, 1]]),
-                ([x, y, [176 + ch, 6, 50]], [[176 + ch, 38, 7], [176 + ch, 97, 2]])]
+                ([x, y, [176 + ch, 6, 50]], [[176 + ch, 38, 7], [176 + ch, 97, 2]]),
+                # a value LSB, then the number is selected again (which discards the LSB); the run repeats the
+                # number byte - a contributing message that is a no-op for the specification - so that the value
+                # MSB arrives exactly n + 1 contributing messages after the LSB (filler `repeat` only)
+                ([x, y, [176 + ch, 38, 24], y], [[176 + ch, 6, 117], [176 + ch, 96, 1]])]
         fill = {"other": [176 + oc, 6, 5], "other-num": [176 + oc, 99, 5], "noncontrib": [144 + ch, 60, 1],
                 "noncontrib-cc": [176 + ch, rng.choice([5, 7, 37, 39, 95, 102, 120, 121, 123]), rng.choice([0, 1, 127])],
                 "system": [248, 0, 0], "sysex": [240, 6, 5]}
@@ -693,6 +697,8 @@ def long_runs(rng, kind, to, thorough=False, base_id=800, fillers=None, lengths=
         for name in names:
             for n in lengths:
                 if n > 5000 and name in ("other-lsb", "other-num", "sysex", "noncontrib-cc") and not thorough:
+                    continue
+                if len(pre) == 4 and name != "repeat":
                     continue
                 if name == "repeat" and kind == "poll" and pre[-1][1] == 38:
                     continue        # a further LSB undoes the previous one: repeating it is not a no-op
@@ -812,6 +818,85 @@ def far_times(rng, n_segments, seg=120, first_id=950, timeouts=(1, 5, 10, 1000),
                             "grp": {"k": "rtp", "i": nbytes + 1, "n": nbytes + 1, "msg": msg, "ord": ord_}})
             else:
                 out.append(tick(iid, rng.choice([0, 1, 1, 2, to - 1 if to > 1 else 1, to, to + 1, 2 * to, 7])))
+    return out
+
+
+def pending_across_wraps(rng, first_id=960, timeouts=(1, 5, 10, 1000)):
+    """A value stays pending for a wrap period of a narrower time representation (2^32 ns, 2^16 ms, 2^31 / 2^32
+    us, 2^24 ms, 2^31 / 2^32 ms) plus 0 .. timeout: an AGE truncated to that width looks young again.  The poll
+    after the wait must deliver it (C13 / C14: no loss, the first poll at or after the deadline)."""
+    out = []
+    iid = first_id
+    for to in timeouts:
+        for w in TIME_BOUNDARIES:
+            for extra in sorted({0, 1, to - 1 if to > 1 else 0, to}):
+                for first in ("msb", "lsb"):
+                    c = rng.randrange(16)
+                    out.append({"op": "new", "id": iid, "k": "poll", "to": to})
+                    out += [{"op": "feed", "id": iid, "m": [176 + c, 99, 3]}, {"op": "feed", "id": iid, "m": [176 + c, 98, 37]}]
+                    out.append({"op": "feed", "id": iid, "m": [176 + c, 6 if first == "msb" else 38, rval(rng)]})
+                    out.append(tick(iid, w + extra))
+                    out.append({"op": "poll", "id": iid, "ch": c})
+                    # what comes next starts afresh: a complete message is decoded
+                    msg = rand_pn_msg(rng)
+                    msg[0] = c
+                    nbytes = 4 if msg[4] == 1 else 3
+                    out.append({"op": "encpn", "id": iid, "msg": msg, "ord": "msb", "gk": "rtp", "more": 1})
+                    out.append(tick(iid, to + 1))
+                    out.append({"op": "poll", "id": iid, "ch": c,
+                                "grp": {"k": "rtp", "i": nbytes + 1, "n": nbytes + 1, "msg": msg, "ord": "msb"}})
+    return out
+
+
+def saturation_battery(rng, kind, to, base_id=100):
+    """C15: ALL 16 channels hold the same kind of partial progress at once (fed in channel order, in reverse or
+    shuffled), then every channel is completed / polled, again in several orders.  Interleaved scanner (id base)
+    against one scanner per channel (id base + 1 + c).  Shared bookkeeping over the channels (a list of busy
+    channels, a counter of pending values) is full only here."""
+    out = []
+    if kind == "cc14":
+        prefixes = [[[7, 100]], [[7, 100], [39, 1]]]
+        posts = [[[39, 5]], [[7, 3], [39, 6]]]
+    else:
+        sel = [[99, 3], [98, 37]]
+        prefixes = [sel, sel + [[6, 50]], sel + [[38, 7]], [[101, 0]], sel + [[6, 50], [38, 7]]]
+        posts = [[[6, 117]], [[38, 24]], [[96, 1]], [[6, 9], [38, 8]]]
+    orders = [list(range(16)), list(reversed(range(16)))]
+    sh = list(range(16))
+    rng.shuffle(sh)
+    orders.append(sh)
+    for pre in prefixes:
+        for post in posts:
+            for o1 in orders:
+                o2 = rng.choice(orders)
+                out.append({"op": "new", "id": base_id, "k": kind, "to": to})
+                for c in range(16):
+                    out.append({"op": "new", "id": base_id + 1 + c, "k": kind, "to": to})
+
+                def feed(c, cn, v):
+                    m = [176 + c, cn, v]
+                    out.append({"op": "feed", "id": base_id, "m": m})
+                    out.append({"op": "feed", "id": base_id + 1 + c, "m": m, "tw": 1, "twp": "C15"})
+
+                def poll(c):
+                    out.append({"op": "poll", "id": base_id, "ch": c})
+                    out.append({"op": "poll", "id": base_id + 1 + c, "ch": c, "tw": 1, "twp": "C15"})
+
+                for c in o1:
+                    for cn, v in pre:
+                        feed(c, cn, v)
+                late = rng.random() < 0.5
+                if kind == "poll" and late:
+                    out.append({"op": "tick", "id": -1, "dt": max(to, 0) + 1})
+                for c in o2:
+                    if kind == "poll" and rng.random() < 0.5:
+                        poll(c)
+                    for cn, v in post:
+                        feed(c, cn, v)
+                if kind == "poll":
+                    out.append({"op": "tick", "id": -1, "dt": max(to, 0) + 1})
+                    for c in o1:
+                        poll(c)
     return out
 
 
@@ -1016,7 +1101,8 @@ def real_time_measured(rng, n_segments, T=300, M=100, base_id=940):
                 poll(x)
             feed([176 + y, 6, rval(rng)])
             sleep(rng.choice([40, 120, T - M]))
-            poll(y)
+            if settled(y):
+                poll(y)
             if settled(x):
                 poll(x)
             sleep(T + M - 40)
@@ -1064,8 +1150,14 @@ def reset_after_histories(rng, kind, to, base_id=720, depth=4):
         alpha = [[176 + ch, 6, 117], [176 + ch, 38, 24], [176 + ch, 96, 1], [176 + ch, 98, 38], [176 + ch, 101, 3]]
         post = [[176 + ch, 99, 3], [176 + ch, 98, 37], [176 + ch, 6, 100], [176 + ch, 38, 24], [176 + ch, 97, 1],
                 [176 + ch, 101, 3], [176 + ch, 100, 36], [176 + ch, 38, 7], [176 + ch, 6, 8]]
-    for n in range(1, depth + 1):
-        for seq in itertools.product(alpha, repeat=n):
+    # ... and histories that also contain messages with a meaning of their own on that channel (channel mode
+    # messages, bank select, program change, system reset): whatever they do to the scanner, reset() undoes it
+    loaded = [[176 + ch, 121, 0], [176 + ch, 120, 0], [176 + ch, 123, 0], [176 + ch, 0, 1], [192 + ch, 5, 0], [255, 0, 0]]
+    seqs = [seq for n in range(1, depth + 1) for seq in itertools.product(alpha, repeat=n)]
+    wide = alpha + loaded
+    seqs += [seq for n in range(1, depth) for seq in itertools.product(wide, repeat=n) if any(m in loaded for m in seq)]
+    for seq in seqs:
+        if True:
             out.append({"op": "new", "id": a, "k": kind, "to": to})
             for m in pre0 + list(seq):
                 out.append({"op": "feed", "id": a, "m": m})
